@@ -333,6 +333,10 @@ pub struct ISet {
     model: BTreeSet<u8>,
     limit: Option<usize>,
     n: u8,
+    /// > 0: the set starts with this many disjoint intervals [4i, 4i+1] (the structure switches from a
+    /// linear scan to a binary search at 16 intervals) and the alphabet is every insert / remove of
+    /// 1-3 values over 0..n
+    preset: u8,
 }
 
 fn runs(m: &BTreeSet<u8>) -> Vec<(u8, u8)> {
@@ -356,7 +360,16 @@ impl ISet {
             Some(l) => IntervalSet::with_limit(std::num::NonZeroUsize::new(l).unwrap()),
             None => IntervalSet::new(),
         };
-        ISet { real, model: BTreeSet::new(), limit, n }
+        ISet { real, model: BTreeSet::new(), limit, n, preset: 0 }
+    }
+    pub fn new_preset(limit: Option<usize>, preset: u8) -> ISet {
+        let mut s = ISet::new(limit, 4 * preset + 2);
+        s.preset = preset;
+        for i in 0..preset {
+            s.real.insert(4 * i..=4 * i + 1).unwrap();
+            s.model.extend(4 * i..=4 * i + 1);
+        }
+        s
     }
     fn from_mask(mask: u16, n: u8) -> IntervalSet<u8> {
         let mut s = IntervalSet::new();
@@ -399,6 +412,20 @@ impl Sys for ISet {
     fn ops(&self) -> Vec<IOp> {
         let n = self.n;
         let mut ops = Vec::new();
+        if self.preset > 0 {
+            let min = self.model.iter().next().copied();
+            for lo in 0..n {
+                for hi in lo..n.min(lo + 3) {
+                    ops.push(IOp::Insert(lo, hi));
+                    ops.push(IOp::Remove(lo, hi));
+                    if min.map_or(true, |m| hi < m) {
+                        ops.push(IOp::InsertFront(lo, hi));
+                    }
+                }
+            }
+            ops.push(IOp::PopMin);
+            return ops;
+        }
         for lo in 0..n {
             for hi in lo..n {
                 ops.push(IOp::Insert(lo, hi));
@@ -525,7 +552,7 @@ impl Sys for ISet {
         key128(&format!("{:?}|{:?}", self.real, self.real.capacity() > 0))
     }
     fn fork(&self) -> Option<Self> {
-        Some(ISet { real: self.real.clone(), model: self.model.clone(), limit: self.limit, n: self.n })
+        Some(ISet { real: self.real.clone(), model: self.model.clone(), limit: self.limit, n: self.n, preset: self.preset })
     }
     fn outcome(&self) -> u64 {
         runs(&self.model).len() as u64
@@ -551,6 +578,8 @@ pub struct AckR {
     model: BTreeSet<u64>,
     cap: usize,
     n: u64,
+    /// > 0: starts with this many ranges [4i, 4i+1]; alphabet = single numbers and ranges of 2-3
+    preset: u64,
 }
 
 fn runs64(m: &BTreeSet<u64>) -> Vec<(u64, u64)> {
@@ -566,7 +595,16 @@ fn runs64(m: &BTreeSet<u64>) -> Vec<(u64, u64)> {
 
 impl AckR {
     pub fn new(cap: usize, n: u64) -> AckR {
-        AckR { real: ack::Ranges::new(cap), model: BTreeSet::new(), cap, n }
+        AckR { real: ack::Ranges::new(cap), model: BTreeSet::new(), cap, n, preset: 0 }
+    }
+    pub fn new_preset(cap: usize, preset: u64) -> AckR {
+        let mut a = AckR::new(cap, 4 * preset + 2);
+        a.preset = preset;
+        for i in 0..preset {
+            a.real.insert_packet_number_range(PacketNumberRange::new(pn(4 * i), pn(4 * i + 1))).unwrap();
+            a.model.extend(4 * i..=4 * i + 1);
+        }
+        a
     }
 }
 
@@ -578,7 +616,8 @@ impl Sys for AckR {
             ops.push(AOp::Insert(v));
         }
         for lo in 0..self.n {
-            for hi in lo + 1..self.n {
+            let top = if self.preset > 0 { self.n.min(lo + 3) } else { self.n };
+            for hi in lo + 1..top {
                 ops.push(AOp::InsertRange(lo, hi));
             }
         }
@@ -651,7 +690,7 @@ impl Sys for AckR {
         key128(&format!("{:?}", self.real))
     }
     fn fork(&self) -> Option<Self> {
-        Some(AckR { real: self.real.clone(), model: self.model.clone(), cap: self.cap, n: self.n })
+        Some(AckR { real: self.real.clone(), model: self.model.clone(), cap: self.cap, n: self.n, preset: self.preset })
     }
     fn outcome(&self) -> u64 {
         runs64(&self.model).len() as u64
@@ -961,11 +1000,22 @@ pub fn run(family: &str, tier: Tier, out: &mut Output) {
                 let cfg = Json::obj().set("limit", limit.map(|l| l as i128).unwrap_or(-1)).set("n", n);
                 out.push(explore("seqmc", "c16.iset", cfg, &move || ISet::new(limit, n), &Limits::depth(tier.pick(6, 10)).wall(60.0)));
             }
+            // started from 16-20 disjoint intervals: IntervalSet::index_for scans linearly below 16
+            // intervals and uses a binary search from 16 on, which the small alphabets above never reach
+            for (limit, preset) in [(None, 18u8), (Some(18usize), 18u8), (Some(16), 16), (Some(20), 17), (None, 15)] {
+                let cfg = Json::obj().set("limit", limit.map(|l| l as i128).unwrap_or(-1)).set("n", 4 * preset + 2).set("preset", preset);
+                out.push(explore("seqmc", "c16.iset", cfg, &move || ISet::new_preset(limit, preset), &Limits::depth(3).wall(tier.pick(40.0, 300.0))));
+            }
         }
         "ackranges" => {
             for (cap, n) in [(3usize, 10u64), (1, 6), (2, 8)] {
                 let cfg = Json::obj().set("capacity", cap).set("n", n);
                 out.push(explore("seqmc", "c16.ackranges", cfg, &move || AckR::new(cap, n), &Limits::depth(tier.pick(8, 12)).wall(60.0)));
+            }
+            // capacities of 16 and more, full or nearly full (binary-search path of the interval set)
+            for (cap, preset) in [(16usize, 16u64), (18, 17), (20, 20)] {
+                let cfg = Json::obj().set("capacity", cap).set("n", 4 * preset + 2).set("preset", preset);
+                out.push(explore("seqmc", "c16.ackranges", cfg, &move || AckR::new_preset(cap, preset), &Limits::depth(3).wall(tier.pick(40.0, 300.0))));
             }
         }
         "pnmap" => {
@@ -993,11 +1043,19 @@ pub fn replay(family: &str, cfg: &Json, hist: &[u16]) -> Result<Vec<String>, (Ve
             let l = geti("limit");
             let limit = if l < 0 { None } else { Some(l as usize) };
             let n = geti("n") as u8;
+            let preset = geti("preset") as u8;
+            if preset > 0 {
+                return replay_history(&move || ISet::new_preset(limit, preset), hist);
+            }
             replay_history(&move || ISet::new(limit, n), hist)
         }
         "ackranges" => {
             let cap = geti("capacity") as usize;
             let n = geti("n") as u64;
+            let preset = geti("preset") as u64;
+            if preset > 0 {
+                return replay_history(&move || AckR::new_preset(cap, preset), hist);
+            }
             replay_history(&move || AckR::new(cap, n), hist)
         }
         "pnmap" => {
